@@ -11,6 +11,9 @@
     golden-corpus pairs/triples, generated failing predecessors (open constructs, mode changes), one
     ASSUME/ON-OFF setter per inventory variable against golden successors of the same target, and
     trailing-statement files under one forced further pass.
+(A'+C') c18_statics.py: the reset inventory widened to every file-scope / function-static variable of every code*.c
+    (Generated/GenStatics.lean, Props/C18_Statics.lean), the experiments behind its exception list and setter histories
+    for the persistent variables whose writing instruction is known.
 """
 import concurrent.futures
 import json
@@ -472,7 +475,7 @@ def tests_by_cpu(tests):
 def run(args):
     global GEN_6502
     res = common.Result("C18", args.tier, args.seed, "proof")
-    bdir, audit, proof_problems = common.standard_setup(res, "C18", ["GenState"])
+    bdir, audit, proof_problems = common.standard_setup(res, "C18", ["GenState", "GenStatics"])
     if bdir is None:
         return res.finish()
     drv_ok = not any(p.startswith("driver does not build") for p in proof_problems)
@@ -791,6 +794,14 @@ def run(args):
                                           sources=[("a", s["lines"])], successor=tmap[gn][1]))
         dist["successors_failing"] = len([n for n in ok_names if alone[n][0] == 2])
 
+        # ---------------- widened inventory: all persistent statics of the code generators (Props/C18_Statics.lean)
+        from . import c18_statics
+        import time as _time
+        _t0 = _time.time()
+        n_st, statics_ev = c18_statics.run(bdir, wd, args, rng, tests, alone, tmap, ok_names, cpu_idx, spec_fail, proof_problems, dist, distinct)
+        evaluations += n_st
+        dist["static_part_wall_s"] = round(_time.time() - _t0, 1)
+
     if os.environ.get("C18_DEBUG"):
         with open(os.environ["C18_DEBUG"], "w") as fh:
             json.dump(dict(spec=spec_fail, corr=corr_fail, proof=proof_problems), fh, indent=1, default=str)
@@ -798,16 +809,21 @@ def run(args):
         "translate/globals.py (clang-14 JSON AST of every code*.c, as.c, asmallg.c, asmif.c, asmmac.c, asmstructs.c: ASSUMERec/AddONOFF/tCPUArg tables and the assignment sets of "
         "AddInitPassProc procedures, SwitchTo_*/SwitchFrom_*, AssembleFile_InitPass; syntactic may-assign, transitively through callees of the same file)",
         "hand-written classification CORE_CLASSES of 19 core variables",
+        "translate/statics.py (clang-14 JSON AST of every code*.c: class scratch / config / persistent of every file-scope and function-static variable by a flow-sensitive "
+        "written-before-read analysis with per-function summaries; reset flags as above) and the justified exception list of Props/C18_Statics.lean / c18_statics.py",
         "correspondence: real asl vs Model.Files on probe histories (differential test); probes calibrated on the real binary each run",
         "differential part (labelled): golden-corpus pairs/triples and generated predecessors, `asl a b` vs `asl a`, `asl b`"])
     res.coverage.update(
         evaluations=evaluations, distinct_nontrivial=len(distinct),
         rule="one evaluation = one joint run `asl f1..fn` (n >= 2, or n = 1 with a forced further pass) compared file by file with the single runs; "
              "distinct by (ordered) file list / op list; non-trivial = at least two files or a forced pass",
-        samples=samples, distribution=dist, inventory_not_reset=unreset_inv,
+        samples=samples, distribution=dist, inventory_not_reset=unreset_inv, statics=statics_ev,
         core_vars_needing_per_pass_reset=[r["var"] for r in core_rows if r["cls"] == "perpass"])
-    res.assumptions = ["the statement-settable state of a code generator is what its ASSUMERec tables, AddONOFF calls, tCPUArg tables and a pASSUMEOverride handler reach; other statics of code*.c "
-                       "(literal pools, per-target mode variables set by pseudo-instructions) are covered only by the differential histories",
+    res.assumptions = ["the state of a code generator is its file-scope and function-static variables (Generated/GenStatics, all code*.c) plus what its ASSUMERec tables, AddONOFF calls, "
+                       "tCPUArg tables and a pASSUMEOverride handler reach (Generated/GenState); statics of the shared *pseudo.c helpers are covered only by the differential histories",
+                       "class `scratch` is decided syntactically: written before read on every path of one decoder invocation (rule `strong`), or - inside functions that are not statement "
+                       "entry points - after a call that is certainly made and may write the variable (rule `call`: `DecodeAdr(...); if (AdrMode == ModX) use(AdrPart)`); "
+                       "a value that is only read under a guard established in the same statement is not recognised and is listed as a justified exception",
                        "a syntactic assignment on the init path counts as a reset (not checked: that it is unconditional and assigns a constant)",
                        "forced further passes use hook H1 (ASL_VERIF_EXTRA_PASSES)", "golden tests with non-empty asflags (9 of 201) are left out"]
     return common.conclude(res, proof_problems, spec_fail, corr_fail, evaluations)
